@@ -462,3 +462,20 @@ Example C19_counters_no_panic_example :
                  (Model.Counters.serve (class_of sd CDB (Model.Compose.g_store y_g1) q (Model.Serve.LocOk x_L) ecs max))).
 Proof. exact counters_no_panic_example. Qed.
 Print Assumptions C19_counters_no_panic_example.
+
+(* Why scan and drop of a cleaner tick must be one critical section (the shape the
+   free-running harness class cleaner-race looks for).  Alone, scanning the expired
+   prefix and dropping that many samples later is the tick ... *)
+Theorem C19_split_tick_alone : forall now w, drop_n (scan now w) w = tick now w.
+Proof. exact split_tick_alone. Qed.
+Print Assumptions C19_split_tick_alone.
+
+(* ... but with an export (Samples) of another goroutine between the scan and the drop, a
+   live sample is removed: the next read differs from what the history prescribes.
+   Witness: lifetime 1000, adds (t=0, 9) and (t=1500, 5), tick and export at 2000. *)
+Theorem C19_split_tick_refuted :
+  exists (L : Z) (h : list wevent) (t : Z),
+    (0 <= L)%Z /\ mono (h ++ [WRead t]) /\
+    snd (samples t (split_tick_with_export t t (exec L h))) <> spec_samples L h t.
+Proof. exact split_tick_refuted. Qed.
+Print Assumptions C19_split_tick_refuted.
